@@ -30,8 +30,18 @@ ASSUMPTIONS = ["definitions mention only base symbols and earlier names (no cycl
                "every non-constant operand is non-empty)",
                "exponent arithmetic in Q vs int/binary64 as in C08"]
 TRUSTED = ["the library's own parser is used to read the result's unit string back (tied by C12/C13)"]
-LEVEL_TEXT = "proof"
-LEVEL_NOTE = "theorems about the Lean model; model tied to the code by the differential run"
+LEVEL_TEXT = ("Lean 4 theorems over an exact list/Rat model of unit definitions, unpacking and packing: "
+              "C18_dim_preserved (for EVERY ordered definition table and EVERY unit-expression tree in the "
+              "domain, the result's unit - after packing into named units - expands to exactly the "
+              "dimension of exact analysis on the expanded operands), C18_pack_sound / C18_unpack_sound / "
+              "C18_named_only_if_power (a named unit appears only as an exact rational power of its "
+              "definition), C18_clear / C18_clear_last (after clear_unit_definitions the result is the "
+              "base-unit one), C18_define_reject_* / C18_rejected_requests_invisible (a rejected "
+              "define_unit request leaves the table unchanged for all request histories).  Tied to the "
+              "code by a differential run over define/clear/evaluate histories and an independent "
+              "expansion oracle; a proof is the right level because the claim is about every table and tree")
+LEVEL_NOTE = ("proved of the Lean model for all ordered (acyclic) definition tables; cyclic definitions are "
+              "rejected by neither code nor model and are outside the domain; binary64 exponents as in C08")
 TECHNIQUE = "Lean 4 theorems over an exact list/Rat model of unpacking, packing and the operators"
 
 CLASSIC = [("N", "kg*m/s^2", [("kg", 1), ("m", 1), ("s", -2)]),
